@@ -142,10 +142,17 @@ func (c *AppenderRefs) sortByLevel() {
 		return iCode < jCode
 	})
 
-	// Adjust MaxLevel to match the next appender's MinLevel if needed
+	// An open-ended range ends at the next strictly higher MinLevel, so that
+	// references sharing a MinLevel keep the same range instead of an empty one.
 	for i := len(c.AppenderRefs) - 1; i >= 1; i-- {
-		if c.AppenderRefs[i-1].Level.MaxLevel == MaxLevel {
-			c.AppenderRefs[i-1].Level.MaxLevel = c.AppenderRefs[i].Level.MinLevel
+		if c.AppenderRefs[i-1].Level.MaxLevel != MaxLevel {
+			continue
+		}
+		for j := i; j < len(c.AppenderRefs); j++ {
+			if c.AppenderRefs[j].Level.MinLevel.code > c.AppenderRefs[i-1].Level.MinLevel.code {
+				c.AppenderRefs[i-1].Level.MaxLevel = c.AppenderRefs[j].Level.MinLevel
+				break
+			}
 		}
 	}
 }
